@@ -257,6 +257,11 @@ func (bqp *binaryQuantizedPoint) Id() uint64 {
 }
 
 func (bqp *binaryQuantizedPoint) IdFromKey(key []byte) (uint64, bool) {
+	// Once the quantizer has a threshold, points are stored only in their
+	// quantised form under the 'q' suffix, so both suffixes identify a point.
+	if id, ok := conversion.NodeIdFromKey(key, 'q'); ok {
+		return id, true
+	}
 	return conversion.NodeIdFromKey(key, 'v')
 }
 
